@@ -28,8 +28,8 @@ LEVEL_NOTE = "Trusted: numpy double sums, SI constants, the harness's edge-to-si
 
 def budget(tier):
     if tier == "quick":
-        return dict(max_examples=300, workers=6, time_s=170, min_cases=100)
-    return dict(max_examples=2500, workers=16, time_s=1200, min_cases=200)
+        return dict(max_examples=450, workers=8, time_s=170, min_cases=120)
+    return dict(max_examples=15000, workers=16, time_s=1200, min_cases=240)
 
 
 @st.composite
@@ -55,7 +55,21 @@ def _run_case(draw, tier):
     cu = draw(st.sampled_from(gen.CURRENT_UNITS))
     fld = draw(gen.field(dev, fu, kinds=("constant", "float", "ramp"), bmax=0.3))
     cap = draw(st.sampled_from([1000, 1000, 1000, 3, 8]))
-    return dict(kind="run", device=dev, field=fld, currents=draw(gen.currents(dev, cu, kinds=("dict",), jmax=0.2)),
+    # optionally the run starts from the saved final state of an earlier run (screened or not, in its own field), and may
+    # itself be undriven: the currents the seed carries must then be screened all the same
+    seed = None
+    cur = draw(gen.currents(dev, cu, kinds=("dict",), jmax=0.2))
+    if draw(st.integers(0, 2)) == 0:
+        # the earlier run has its own field (any gauge) and the transport current, long enough for the order parameter to pick up
+        # the phase gradients that keep a supercurrent flowing after the drive is removed
+        seed = dict(field=draw(gen.field(dev, fu, kinds=("constant", "float", "gauge_param", "zero"), bmax=0.3)), include_screening=draw(st.booleans()),
+                    nsteps=draw(st.integers(5, 30)), currents=cur)
+        if draw(st.booleans()):
+            fld = dict(kind="zero")
+        if draw(st.booleans()):
+            cur = None
+    return dict(kind="run", device=dev, field=fld, seed=seed,
+                currents=cur,
                 options=dict(dt_c=draw(gen.rf(0.05, 0.4)), dtmax_c=0.45, adaptive=draw(st.booleans()), adaptive_window=3,
                              include_screening=scr, screening_tolerance=draw(st.sampled_from([1e-2, 1e-3, 1e-4, 3e-3])),
                              screening_step_size=draw(st.sampled_from([0.1, 0.1, 0.5, 1.0, 0.05])),
@@ -136,9 +150,31 @@ def _run(spec, res):
         opts = build.make_options(spec["options"], dev, output_file="out.h5")
         tol = float(opts.screening_tolerance)
         alpha, beta = float(opts.screening_step_size), float(opts.screening_step_drag)
+        seed_solution = None
+        if spec.get("seed"):
+            sd = spec["seed"]
+            res.label("starts from a saved state (" + ("screened" if sd["include_screening"] else "unscreened") + " earlier run)",
+                      "undriven after the seed" if spec["field"]["kind"] == "zero" and not spec["currents"] else "driven after the seed")
+            o0 = dict(spec["options"], include_screening=bool(sd["include_screening"]) and scr, nsteps=int(sd["nsteps"]), save_every=100,
+                      max_iterations_per_step=1000, dt_c=0.4, adaptive=False)
+            try:
+                seed_solution = build.make_solver(dev, build.make_options(o0, dev, output_file="seed.h5"),
+                                                  applied_vector_potential=build.make_vector_potential(sd["field"], dev, opts.field_units),
+                                                  terminal_currents=build.make_currents(sd.get("currents"))).solve()
+                _ = seed_solution.tdgl_data
+            except RuntimeError as exc:
+                if "converge" in str(exc):
+                    res.label("documented non-convergence (earlier run)")
+                    return res
+                raise
+            except ValueError as exc:
+                if "does not contain any points" in str(exc):
+                    res.label("discarded: terminal without boundary sites")
+                    return res
+                raise
         try:
             solver = build.make_solver(dev, opts, applied_vector_potential=build.make_vector_potential(spec["field"], dev, opts.field_units),
-                                       terminal_currents=build.make_currents(spec["currents"]))
+                                       terminal_currents=build.make_currents(spec["currents"]), seed_solution=seed_solution)
         except ValueError as exc:
             if "does not contain any points" in str(exc):
                 res.label("discarded: terminal without boundary sites")
@@ -244,12 +280,13 @@ def _run(spec, res):
     for fr in frames:
         s = int(fr["attrs"]["step"])
         if s == 0:
-            if np.any(fr["induced_vector_potential"] != 0):
+            if seed_solution is None and np.any(fr["induced_vector_potential"] != 0):
                 res.fail("C13.initial", "initial induced potential is not zero")
             continue
         A = fr["induced_vector_potential"]
         new_A = induced_from(fr["supercurrent"] + fr["normal_current"])
-        amax = float(np.max(np.linalg.norm(A, axis=1)))
+        # relative to the larger of the stored potential and the sum it must reproduce (a stored zero does not reproduce a non-zero sum)
+        amax = max(float(np.max(np.linalg.norm(A, axis=1))), float(np.max(np.linalg.norm(new_A, axis=1))))
         mism = float(np.max(np.linalg.norm(A - new_A, axis=1))) / max(amax, 1e-300)
         if alpha <= 0.2 and beta >= 0.4:
             worst = max(worst, mism / tol)
@@ -273,7 +310,8 @@ def _run(spec, res):
             vmax = float(np.max(np.linalg.norm(last["A_out"] - last["A_prev"], axis=1)))
             bound = 1.05 * (tol + vmax / max(amax, 1e-300)) + 1e-12
         else:
-            bound = np.inf
+            # no iteration was made for this step, so no momentum term either
+            bound = 1.05 * tol + 1e-12
         if amax > 1e-12 and mism > bound:
             res.fail("C13.stored_self_consistency", f"step {s}: stored induced potential differs from (mu_0/4pi) sum K a/r of the stored currents by {mism:.3e} relative (tolerance {tol:.1e}, bound {bound:.3e}; step size {alpha}, drag {beta})")
             break
